@@ -8,6 +8,7 @@ import ParryModel.C08.Theorems2
 import ParryModel.C08.Theorems3
 import ParryModel.C08.Theorems4
 import ParryModel.C08.Theorems5
+import ParryModel.C08.Theorems6
 /-!
 # C08 property theorems: the QBVH stays valid under any history
 
